@@ -17,12 +17,15 @@
        unreachable!() and its chain walk terminates.
      Together: the parser (TopEntryPoint::parse up to the step list) returns normally on every
      token sequence and on every text.
-   NOT proved (theorem B, part 3): the totality of the trivia builder / tree builder /
+     - theorem B, part 3a: the step list is one well-bracketed tree rooted at SOURCE_FILE whose
+       Token steps carry exactly the input tokens (by counting completed Start slots against
+       Finish events; forward parents only move Enters earlier).
+   NOT proved (theorem B, part 3b): the totality of the trivia builder / tree builder /
    validation on the parser's steps.  These are covered by the bounded-exhaustive
    correspondence and the no-panic oracle on the implementation only. *)
 From Coq Require Import NArith Arith List Bool.
 From OQ3 Require Import gen.Kinds Model.Lexer Model.Lexed Model.Parser Model.Grammar
-                        Proofs.LexerP Proofs.WP Proofs.GrammarA Proofs.MarkerB Proofs.GrammarB5 Proofs.PipelineP.
+                        Proofs.LexerP Proofs.WP Proofs.GrammarA Proofs.MarkerB Proofs.GrammarB5 Proofs.ProcessB Proofs.PipelineP.
 Import ListNotations.
 
 Theorem C01_lexer_total : forall l, tokenize_fuel (S (length l)) l = Some (tokenize l).
@@ -80,6 +83,14 @@ Proof. exact run_parser_total_AB. Qed.
 Theorem C01_text_parser_total_AB : forall l, exists st, run_parser (to_input (lexed_of l)) = Steps st.
 Proof. intros l. apply run_parser_total_AB. apply to_input_ne_eof. Qed.
 
+(* theorem B part 3a: the step list is one well-bracketed tree rooted at SOURCE_FILE (it starts
+   with Enter SOURCE_FILE, ends with the Exit closing it, the depth in between never falls below
+   one), and its Token steps carry exactly the input tokens, each at least one raw token *)
+Theorem C01_parser_output_is_one_tree : forall inp,
+  (forall i k j, nth_error inp i = Some (k, j) -> k <> K_EOF) ->
+  exists st, run_parser inp = Steps st /\ TreeSteps (ntoks inp) st.
+Proof. exact run_parser_tree. Qed.
+
 (* theorem A for every text *)
 Theorem C01_text_total_A : forall l,
   match run_parser (to_input (lexed_of l)) with
@@ -105,3 +116,4 @@ Print Assumptions C01_grammar_phase_total.
 Print Assumptions C01_process_total.
 Print Assumptions C01_parser_total_AB.
 Print Assumptions C01_text_parser_total_AB.
+Print Assumptions C01_parser_output_is_one_tree.
